@@ -1,6 +1,6 @@
 SPECIFICATION Spec
-CONSTANTS NameSeq <- SmallNames
-          Toks <- SmallToks
+CONSTANTS NameSeq <- TinyNames
+          Toks <- TinyToks
           Depth = 5
           ForcedTail <- TailRoundTrip
 INVARIANT Emit
